@@ -477,6 +477,7 @@ PROPS["C05"] = {
             {"run": "^TestCMP$", "checks": 60, "shards": 12, "timeout": 2400},
         ],
         "thorough": [
+            {"run": "^TestSweep$", "shards": 16, "timeout": 9000},
             {"run": "^TestCheap$", "checks": 200000, "shards": 6},
             {"run": "^TestDoerner$", "checks": 40000, "shards": 4},
             {"run": "^TestCMP$", "checks": 2400, "shards": 16, "timeout": 9000},
@@ -506,6 +507,39 @@ PROPS["C06"] = {
         "thorough": [
             {"run": "^TestCheap$", "checks": 160000, "shards": 8},
             {"run": "^TestCMP$", "checks": 240, "shards": 16, "timeout": 9000},
+        ],
+    },
+}
+
+PROPS["C09"] = {
+    "pkg": "c09", "level": "exploration",
+    "technique": "metamorphic property testing (rapid): (a) pairs of start-parameter tuples differing in exactly one component (session id incl. nil vs empty, protocol, "
+                 "participant set incl. shared-prefix / equal-concatenation / non-ASCII families, threshold, and for CMP key material, presignature, message) must give "
+                 "different session tags, permutations of the same identifiers the same tag; (b) every message of a recorded session A is offered to every party of a session "
+                 "B that differs in one parameter, before every step: CanAccept must be false, forced delivery must emit nothing and B's results must equal its baseline; "
+                 "(c) a cheater re-sends an honest party's message of the same round under its own name (fault injection): no wrong result, no honest party blamed",
+    "level_text": "Tags are read from the first round of the library's own start functions for all 15 protocol classes; the replay part runs the real handlers of B with fixed "
+                  "per-party randomness so that 'changes nothing' is byte-exact equality of results.",
+    "level_note": "For FROST and Doerner the statement does not require the tag to depend on key material or message, so those variations are only generated for CMP. Curves: "
+                  "only secp256k1 exists.",
+    "rule": "case = (varied component, protocol pair, identifier family) for tags, (varied component, A protocol, B protocol) for replay, (protocol, n, round, kind, outcome) "
+            "for impersonation; non-trivial iff some component was varied / the substitution was applied; distinct = distinct class keys; counters.foreign_messages_offered "
+            "counts CanAccept probes",
+    "assumptions": ["authenticated channels for part (c)"],
+    "tiers": {
+        "quick": [
+            {"run": "^TestTags$", "checks": 2400, "shards": 12},
+            {"run": "^TestReplayCheap$", "checks": 600, "shards": 4},
+            {"run": "^TestReplayCMP$", "checks": 4, "shards": 4, "timeout": 2400},
+            {"run": "^TestImpersonate$", "checks": 600, "shards": 2},
+            {"run": "^TestImpersonateCMP$", "checks": 6, "shards": 6, "timeout": 2400},
+        ],
+        "thorough": [
+            {"run": "^TestTags$", "checks": 60000, "shards": 12},
+            {"run": "^TestReplayCheap$", "checks": 30000, "shards": 6},
+            {"run": "^TestReplayCMP$", "checks": 160, "shards": 16, "timeout": 9000},
+            {"run": "^TestImpersonate$", "checks": 30000, "shards": 4},
+            {"run": "^TestImpersonateCMP$", "checks": 240, "shards": 16, "timeout": 9000},
         ],
     },
 }
